@@ -25,12 +25,12 @@ def _N(xs):
 
 def constants(mode, random=False, emit=True, devs=(), explain=(), mm=1, ml=2, mk=1, mo=1, names=("foo",), progs=("p1",), kts=KT_ALL,
               keys=("k1",), lvals=("a",), itoks=("small",), ftoks=("small",), bounds=("b12",), obs=(0, 3),
-              hosts=("h",), prefixes=("",), shared=False):
+              hosts=("h",), prefixes=("",), shared=False, epoch=False):
     c = {"MaxMetrics": mm, "MaxLsets": ml, "MaxKeys": mk, "MaxObs": mo,
          "Names": _S(names), "Progs": _S(progs), "KindTypeNames": _S(kts), "KeyNames": _S(keys), "LabelVals": _S(lvals),
          "IntToks": _S(itoks), "FloatToks": _S(ftoks), "BoundNames": _S(bounds), "ObsVals": _N(obs),
          "Hosts": _S(hosts), "Prefixes": _S(prefixes), "Mode": mode, "Random": random, "EmitCases": emit,
-         "SharedNames": shared}
+         "SharedNames": shared, "EpochTs": epoch}
     for d in DEVS:
         c[d] = d in devs
     c["Explain"] = _S(sorted(explain))
